@@ -349,8 +349,10 @@ class DocGen:
                              attached=True, surface="attribute")
                 b.strings = [(s, pool)]
                 o.bindings.append(b)
-        if self.p_callback and rng.random() < self.p_callback:
-            self._callback(o)
+        if self.p_callback:
+            for _ in range(4):
+                if rng.random() < self.p_callback:
+                    self._callback(o)
         rng.shuffle(o.bindings)
 
     def _mk(self, o, path, src, vkind, expect, attached=False, surface="property", ptype=None):
@@ -484,6 +486,23 @@ class DocGen:
             g = self._group(o, name, "iconset", ms)
             for m in g.members:
                 m.strings = [(m.expect[2], "icon")]
+            return g
+        if t == "QPalette" and self.groups:
+            roles = ["window", "windowText", "base", "text", "button", "buttonText", "highlight", "link", "mid", "dark"]
+            cols = ["red", "#fff", "#102030", "black", "#80ffffff", "gray", "transparent", "#abc"]
+            ms = []
+            for r in rng.sample(roles, rng.randint(1, 4)):
+                ms.append(((r,), '"%s"' % rng.choice(cols)))
+            for grp in rng.sample(["active", "inactive", "disabled"], rng.randint(0, 2)):
+                for r in rng.sample(roles, rng.randint(1, 3)):
+                    ms.append(((grp, r), '"%s"' % rng.choice(cols)))
+            members = []
+            for (sub, src) in ms:
+                m = self._mk(o, (name,) + sub, src, "const", None)
+                m.surface = "unjudged"
+                members.append(m)
+            g = Group(name, "palette", members, "dotted")
+            g.owner = o
             return g
         if t == "QCursor":
             v = rng.choice(("ArrowCursor", "WaitCursor", "IBeamCursor", "CrossCursor", "PointingHandCursor", "BusyCursor"))
@@ -625,6 +644,9 @@ class DocGen:
                 cands.append((n, longest))
         if not cands:
             return
+        cands = [c for c in cands if not any(getattr(b, "signal", None) == c[0] for b in o.bindings)]
+        if not cands:
+            return
         n, args = rng.choice(sorted(cands))
         targets = [x for x in self._all_objs(o) if x.id and x.kind in ("widget", "menu")]
         if not targets:
@@ -632,6 +654,7 @@ class DocGen:
         tg = rng.choice(targets)
         body = rng.choice(("%s.setEnabled(false)" % tg.id, "%s.enabled = !%s.enabled" % (tg.id, tg.id),
                            "{ %s.hide(); %s.show() }" % (tg.id, tg.id), "console.log(\"%s\")" % n,
+                           "console.warn(Math.min(1, 2))",
                            "%s.toolTip = qsTr(\"done\")" % tg.id))
         b = self._mk(o, ("on" + catalog.cap(n),), body, "callback", None, surface="header")
         b.signal = n
